@@ -35,7 +35,8 @@ def word_values(word):
     from pyformlang.cfg import Terminal, Epsilon
     out = []
     try:
-        items = list(word)
+        from vf.values import items_of
+        items = items_of(word)
     except TypeError:
         return None
     for x in items:
